@@ -561,15 +561,10 @@ def step (s : St) (e : Ev) (st : Started) : St × Res :=
       if convs.any (fun c => !t.convs.contains c && (!s.convs.contains c || !attachable)) then (s, .err) else
       -- detach deselected converters
       let s := (t.convs.filter (fun c => !convs.contains c)).foldl (fun s c => detachConv s name c) s
-      -- attach new ones, stopping at the first error (earlier changes stay: see `api_atomic`)
+      -- attach new ones (the selection was validated above, so attaching cannot fail)
       let cur := ((sget s.tags name).map (·.convs)).getD []
-      let (s, ok) := convs.foldl (fun (acc : St × Bool) c =>
-        let (s, ok) := acc
-        if !ok then acc
-        else if cur.contains c then acc
-        else if !s.convs.contains c then (s, false)
-        else attachConv s name c) (s, true)
-      if !ok then (s, .err) else (startConverter s, .ok)
+      let s := (convs.filter (fun c => !cur.contains c)).foldl (fun s c => (attachConv s name c).1) s
+      (startConverter s, .ok)
   | .markAdd name ids =>
     if !ids.isEmpty && !(name.startsWith "mark/" || name.startsWith "generated/") then (s, .err) else
     match sget s.tags name with
